@@ -33,6 +33,9 @@ class Check(PropertyCheck):
             if i % 12 == 11:
                 yield self.multi_scenario(rng)
                 continue
+            if i % 12 == 8:
+                yield Scenario(["new", f"mark selfunsub {rng.randint(0, 10**6)}"], {"kind": "selfunsub", "family": "selfunsub", "accepted": 3})
+                continue
             if i % 12 == 7:
                 yield Scenario(["new", f"mark raiser {rng.randint(0, 10**6)}"], {"kind": "raiser", "family": "raiser", "accepted": 3})
                 continue
@@ -184,6 +187,9 @@ class Check(PropertyCheck):
 
     def oracle(self, impl, scenario, index, line, out, ctx):
         res = []
+        if line.startswith("mark selfunsub"):
+            import oracles as _o
+            return _o.self_unsub_episode(int(line.split()[2]))["C13"]
         if line.startswith("mark raiser"):
             import oracles
             return oracles.raiser_episode(int(line.split()[2]))["C13"]
